@@ -142,29 +142,35 @@ def handleCheck : List Sexp → Sexp
     | _, _, _, _, _, _ => bad
   | _ => bad
 
-/-- `(c03-ref <env> <node>)`: the verdict of the reference typing rules (`synth` with the documented
-rule set) — the Spec side of the oracle for ill-typed mutants -/
+/-- `(c03-ref <env> <node> [<strict>])`: the verdict of the reference typing rules (`synth` with the
+documented rule set) — the Spec side of the oracle for ill-typed mutants; `strict` defaults to true -/
+def refVerdict (e : Env) (n : Node) (strict : Bool) : Sexp :=
+  -- the documented rule set, except that `filter`/`map` keep the static slice type the code reports:
+  -- that deviation is judged by comparing dynamic and static type (keys `…:filter-static-slice`,
+  -- `…:map-static-slice`), and judging the expressions that *use* such results by `[]interface{}`
+  -- would only repeat it
+  let cfg := cfgOfEnv .asIs { TDefects.repaired with staticSliceOf := true } e strict .none
+  match synth cfg [] n with
+  | some t => .list [.atom "well", Ty.optToSexp t, Sexp.bool (staticNode cfg [] n)]
+  | none =>
+    -- which rule rejects it: the error the checker with the documented rule set reports
+    let cfg2 := cfgOfEnv .asIs { TDefects.repaired with staticSliceOf := true, retypeNonLiteral := true } e strict .none
+    match check cfg n with
+    | .error _ c _ =>
+      -- `bad-argument` only because a non-literal arithmetic argument must not take the parameter's type?
+      if c == .badArgument && (synth cfg2 [] n).isSome then .list [.atom "ill", .atom "retyped-non-literal-argument"]
+      else .list [.atom "ill", .atom c.name]
+    | _ => .list [.atom "ill", .atom "panic"]
+
 def handleRef : List Sexp → Sexp
   | [.atom "c03-ref", e, n] =>
     match envOfSexp e, Node.ofSexp n with
-    | some e, some n =>
-      -- the documented rule set, except that `filter`/`map` keep the static slice type the code reports:
-      -- that deviation is judged by comparing dynamic and static type (keys `…:filter-static-slice`,
-      -- `…:map-static-slice`), and judging the expressions that *use* such results by `[]interface{}`
-      -- would only repeat it
-      let cfg := cfgOfEnv .asIs { TDefects.repaired with staticSliceOf := true } e true .none
-      match synth cfg [] n with
-      | some t => .list [.atom "well", Ty.optToSexp t, Sexp.bool (staticNode cfg [] n)]
-      | none =>
-        -- which rule rejects it: the error the checker with the documented rule set reports
-        let cfg2 := cfgOfEnv .asIs { TDefects.repaired with staticSliceOf := true, retypeNonLiteral := true } e true .none
-        match check cfg n with
-        | .error _ c _ =>
-          -- `bad-argument` only because a non-literal arithmetic argument must not take the parameter's type?
-          if c == .badArgument && (synth cfg2 [] n).isSome then .list [.atom "ill", .atom "retyped-non-literal-argument"]
-          else .list [.atom "ill", .atom c.name]
-        | _ => .list [.atom "ill", .atom "panic"]
+    | some e, some n => refVerdict e n true
     | _, _ => bad
+  | [.atom "c03-ref", e, n, strict] =>
+    match envOfSexp e, Node.ofSexp n, strict.asBool with
+    | some e, some n, some st => refVerdict e n st
+    | _, _, _ => bad
   | _ => bad
 
 def typesHandlers : List (String × (List Sexp → Sexp)) :=
